@@ -170,7 +170,7 @@ func c10Enumerate(t *testing.T, part string, depth int, stride int) {
 	if stride > 1 {
 		kind = fmt.Sprintf("every %dth program of the enumeration of all programs", stride)
 	}
-	st := NewStats("C10", part, fmt.Sprintf(kind+" `find all P` (and, up to depth 2, `P 'b'` three subroutine-in-loop forms, and 342 guarded-recursion programs: 19 consuming first instructions incl. every class and its negation x 6 continuations x 3 contexts) with P from the nullable-material grammar (18 atoms incl. all anchors and their negations and a `not in` with a multi-byte item, 11 loop heads greedy/fewest/named, or-pairs) to nesting depth %d x all %d texts of length 1..3 over {a,b,\\n}; oracle: VM instructions per Run <= %d (largest observed count reported); non-trivial = program contains a loop whose body is nullable; programs are distinct by construction", depth, len(c10Texts()), c10EnumBudget))
+	st := NewStats("C10", part, fmt.Sprintf(kind+" `find all P` (and, up to depth 2, `P 'b'` three subroutine-in-loop forms, and 396 guarded-recursion programs: 22 consuming first instructions incl. every class and its negation and whole line / word / file x 6 continuations x 3 contexts) with P from the nullable-material grammar (18 atoms incl. all anchors and their negations and a `not in` with a multi-byte item, 11 loop heads greedy/fewest/named, or-pairs) to nesting depth %d x all %d texts of length 1..3 over {a,b,\\n}; oracle: VM instructions per Run <= %d (largest observed count reported); non-trivial = program contains a loop whose body is nullable; programs are distinct by construction", depth, len(c10Texts()), c10EnumBudget))
 	st.Exhaustive = stride == 1
 	defer st.Write()
 	texts := c10Texts()
@@ -262,6 +262,10 @@ func c10ConsumingAtoms() []*Node {
 	}
 	for _, c := range []string{"whitespace", "digit", "letter", "upper", "lower"} {
 		atoms = append(atoms, &Node{K: KClass, Class: c}, &Node{K: KClass, Class: c, Not: true})
+	}
+	// whole line / word / file take at least their first byte (also of an empty line)
+	for _, w := range wholeNames {
+		atoms = append(atoms, &Node{K: KWhole, Class: w})
 	}
 	return atoms
 }
